@@ -37,8 +37,10 @@ MinOf(S) == CHOOSE x \in S : \A y \in S : x <= y
 MaxOf(S) == CHOOSE x \in S : \A y \in S : x >= y
 
 \* ---- standalone lines (on the raw token sequence)
-LeftStart(ts, i) == MinOf({j \in 1..i : \A m \in j..(i - 1) : ts[m].k = "ws"})
-RightEnd(ts, i) == MaxOf({j \in i..Len(ts) : \A m \in (i + 1)..j : ts[m].k = "ws"})
+RECURSIVE LeftStart(_, _)
+LeftStart(ts, i) == IF i > 1 /\ ts[i - 1].k = "ws" THEN LeftStart(ts, i - 1) ELSE i          \* start of the white space run before i
+RECURSIVE RightEnd(_, _)
+RightEnd(ts, i) == IF i < Len(ts) /\ ts[i + 1].k = "ws" THEN RightEnd(ts, i + 1) ELSE i      \* end of the white space run after i
 Alone(ts, i) == /\ ts[i].k \in Eligible
                 /\ LET a == LeftStart(ts, i) IN a = 1 \/ ts[a - 1].k = "nl"
                 /\ LET b == RightEnd(ts, i) IN b = Len(ts) \/ ts[b + 1].k = "nl"
@@ -101,7 +103,9 @@ Scalar(v, escaped) == CASE v.t = "str" -> IF escaped THEN v.esc ELSE v.v
 \* ---- render
 Ok(s) == [err |-> FALSE, out |-> s, calls |-> <<>>]
 Fail(cs) == [err |-> TRUE, out |-> "", calls |-> cs]
-Then(a, b) == IF a.err THEN a ELSE [err |-> b.err, out |-> a.out \o b.out, calls |-> a.calls \o b.calls]
+Then(a, b) == IF a.err THEN a
+              ELSE IF b.err THEN [err |-> TRUE, out |-> "", calls |-> a.calls \o b.calls]
+              ELSE [err |-> FALSE, out |-> a.out \o b.out, calls |-> a.calls \o b.calls]
 Called(nm, r) == [r EXCEPT !.calls = <<nm>> \o r.calls]
 
 RECURSIVE R(_, _, _, _, _, _, _, _)
